@@ -218,6 +218,23 @@ pub struct Sub<C> {
     pub thorough: u32,
     pub strategy: fn(Tier) -> BoxedStrategy<C>,
     pub run: fn(&C) -> Outcome,
+    /// run the campaign in a child process so that a hard crash (allocation failure, abort,
+    /// stack overflow) can be attributed to a case instead of killing the check
+    pub isolate: bool,
+}
+
+/// like `sub`, but crash-isolated (see `Sub::isolate`)
+pub fn sub_isolated<C>(
+    name: &'static str,
+    quick: u32,
+    thorough: u32,
+    strategy: fn(Tier) -> BoxedStrategy<C>,
+    run: fn(&C) -> Outcome,
+) -> Box<dyn SubCheck>
+where
+    C: Debug + Clone + Serialize + DeserializeOwned + Send + Sync + 'static,
+{
+    Box::new(Sub { name, quick, thorough, strategy, run, isolate: true })
 }
 
 pub fn sub<C>(
@@ -236,6 +253,7 @@ where
         thorough,
         strategy,
         run,
+        isolate: false,
     })
 }
 
@@ -307,6 +325,10 @@ where
     }
 
     fn campaign(&self, ctx: &Ctx, known_open: &HashSet<String>) -> SubReport {
+        if self.isolate && std::env::var("PGCHECK_CHILD").is_err() {
+            return self.campaign_isolated(ctx);
+        }
+        let caselog: Option<PathBuf> = if self.isolate { std::env::var("PGCHECK_CASELOG").ok().map(PathBuf::from) } else { None };
         let t0 = Instant::now();
         let total = match ctx.tier {
             Tier::Quick => self.quick,
@@ -320,6 +342,7 @@ where
             for shard in 0..shards {
                 let results = &results;
                 let this = &*self;
+                let caselog = caselog.clone();
                 std::thread::Builder::new()
                     .stack_size(64 << 20)
                     .spawn_scoped(s, move || {
@@ -338,6 +361,10 @@ where
                         let acc_cell = std::cell::RefCell::new(ShardAcc::default());
                         let res = {
                             runner.run(&strat, |case: C| {
+                                if let Some(dir) = &caselog {
+                                    // crash attribution: the case about to run is on disk
+                                    let _ = std::fs::write(dir.join(format!("{shard}.json")), serde_json::to_vec(&case).unwrap_or_default());
+                                }
                                 let mut acc = acc_cell.borrow_mut();
                                 let acc = &mut *acc;
                                 let mut out = run_case(this.run, &case);
@@ -465,6 +492,97 @@ where
     }
 }
 
+impl<C> Sub<C>
+where
+    C: Debug + Clone + Serialize + DeserializeOwned + Send + Sync + 'static,
+{
+    /// Run this sub-check's campaign in a child process; if the child dies (abort, allocation
+    /// failure, stack overflow), find the case that kills a fresh process and report it.
+    fn campaign_isolated(&self, ctx: &Ctx) -> SubReport {
+        let t0 = Instant::now();
+        let exe = std::env::current_exe().expect("current_exe");
+        let dir = std::env::temp_dir().join(format!("pgcheck-caselog-{}-{}", std::process::id(), self.name.replace('/', "_")));
+        let _ = std::fs::remove_dir_all(&dir);
+        let _ = std::fs::create_dir_all(&dir);
+        let out = std::process::Command::new(&exe)
+            .args(["run", ctx.prop, ctx.tier.name(), "--emit-json", "--only", self.name])
+            .env("PGCHECK_CHILD", "1")
+            .env("PGCHECK_CASELOG", &dir)
+            .output();
+        let mut rep = SubReport { name: self.name.to_string(), profile: ctx.profile.to_string(), ..Default::default() };
+        match out {
+            Ok(o) if o.status.success() => {
+                if let Ok(mut v) = serde_json::from_slice::<Vec<SubReport>>(&o.stdout) {
+                    if let Some(r) = v.drain(..).find(|r| r.name == self.name) {
+                        rep = r;
+                    }
+                }
+            }
+            Ok(o) => {
+                let tail: String = String::from_utf8_lossy(&o.stderr).lines().rev().take(4).collect::<Vec<_>>().join(" | ");
+                eprintln!("[{}] child process died ({:?}): {}", self.name, o.status, tail);
+                // which of the cases that were in flight kills a fresh process?
+                let mut found = None;
+                if let Ok(rd) = std::fs::read_dir(&dir) {
+                    for e in rd.flatten() {
+                        let st = std::process::Command::new(&exe).args(["run-case", ctx.prop, self.name]).arg(e.path()).env("PGCHECK_CHILD", "1").output();
+                        if let Ok(st) = st {
+                            if !st.status.success() && st.status.code() != Some(1) {
+                                let msg: String = String::from_utf8_lossy(&st.stderr).lines().rev().take(3).collect::<Vec<_>>().join(" | ");
+                                found = Some((e.path(), format!("{:?}: {}", st.status, msg)));
+                                break;
+                            }
+                        }
+                    }
+                }
+                match found {
+                    Some((path, msg)) => {
+                        let case: serde_json::Value = std::fs::read(&path).ok().and_then(|b| serde_json::from_slice(&b).ok()).unwrap_or(serde_json::Value::Null);
+                        let f = Failure { sig: "abort:process-killed-by-this-case".into(), msg: format!("running this case kills the process (not a catchable panic): {msg}") };
+                        let rdir = Path::new(VERIF_DIR).join("failures").join(ctx.prop);
+                        let _ = std::fs::create_dir_all(&rdir);
+                        let mut h = DefaultHasher::new();
+                        case.to_string().hash(&mut h);
+                        let rpath = rdir.join(format!("{}-abort-{:016x}.json", self.name.replace('/', "_"), h.finish()));
+                        let rf = ReplayFile { property: ctx.prop.to_string(), sub: self.name.to_string(), sig: f.sig.clone(), msg: f.msg.clone(), case };
+                        let _ = std::fs::write(&rpath, serde_json::to_string_pretty(&rf).unwrap());
+                        rep.evaluations = 1;
+                        rep.violation = Some(ViolationReport { sig: f.sig, msg: f.msg, replay: rpath.to_string_lossy().into_owned() });
+                    }
+                    None => {
+                        // could not attribute the crash: inconclusive (reported by the caller as exit 2)
+                        rep.labels.insert("INCONCLUSIVE: child process died and no in-flight case reproduces it".into(), 1);
+                    }
+                }
+            }
+            Err(e) => {
+                eprintln!("cannot start child process: {e}");
+                rep.labels.insert("INCONCLUSIVE: cannot start child process".into(), 1);
+            }
+        }
+        let _ = std::fs::remove_dir_all(&dir);
+        rep.wall_s = t0.elapsed().as_secs_f64();
+        rep
+    }
+}
+
+/// `pgcheck run-case <prop> <sub> <case.json>`: run one case in this process (used for crash attribution
+/// and for replaying cases that kill the process).  Exit 0 pass, 1 failure, anything else = the process died.
+pub fn run_case_file(props: &[Property], prop: &str, sub: &str, path: &Path) -> i32 {
+    let Some(p) = props.iter().find(|p| p.id == prop) else { return 2 };
+    let Some(sc) = p.subs.iter().find(|s| s.name() == sub) else { return 2 };
+    let Ok(bytes) = std::fs::read(path) else { return 2 };
+    let Ok(v) = serde_json::from_slice::<serde_json::Value>(&bytes) else { return 2 };
+    match sc.replay(&v) {
+        Ok(Ok(_)) => 0,
+        Ok(Err(f)) => {
+            eprintln!("{}: {}", f.sig, f.msg);
+            1
+        }
+        Err(_) => 2,
+    }
+}
+
 fn write_replay<C: Serialize>(prop: &str, sub: &str, f: &Failure, c: &C) -> PathBuf {
     let dir = Path::new(VERIF_DIR).join("failures").join(prop);
     let _ = std::fs::create_dir_all(&dir);
@@ -553,6 +671,18 @@ pub fn run_property(props: &[Property], id: &str, tier: Tier, emit_json: bool, o
         let mut open_seen: HashSet<String> = HashSet::new();
         for f in &files {
             replayed += 1;
+            // pinned cases that kill the process are replayed in a child process
+            let pinned: Option<ReplayFile> = std::fs::read_to_string(f).ok().and_then(|s| serde_json::from_str(&s).ok());
+            if let Some(rf) = pinned.filter(|rf| rf.sig.starts_with("abort:")) {
+                let tmp = std::env::temp_dir().join(format!("pgcheck-pinned-{}.json", std::process::id()));
+                let _ = std::fs::write(&tmp, rf.case.to_string());
+                let st = std::process::Command::new(std::env::current_exe().expect("exe")).args(["run-case", &rf.property, &rf.sub]).arg(&tmp).env("PGCHECK_CHILD", "1").output();
+                let _ = std::fs::remove_file(&tmp);
+                if !st.map(|o| o.status.success()).unwrap_or(false) {
+                    violations.push(ViolationReport { sig: rf.sig.clone(), msg: format!("pinned case still fails / kills the process: {}", rf.msg), replay: f.to_string_lossy().into_owned() });
+                }
+                continue;
+            }
             match replay_file(props, f) {
                 Err(e) => {
                     eprintln!("replay error: {e}");
@@ -724,6 +854,10 @@ pub fn run_property(props: &[Property], id: &str, tier: Tier, emit_json: bool, o
             println!("  {}", v.msg);
         }
         return 1;
+    }
+    if let Some(l) = reports.iter().flat_map(|r| r.labels.keys()).find(|l| l.starts_with("INCONCLUSIVE")) {
+        eprintln!("{l}");
+        return 2;
     }
     // generator health: a property whose campaigns produced almost no non-trivial case is inconclusive
     if distinct < 2 && only.is_none() {
